@@ -276,6 +276,7 @@ def monitor_trace(t, P):
     close_done = None
     started_after_close = set()
     parked_at_close = set()
+    decided = {}            # non-waiting get -> (closed, permits, step) when its semaphore operation was decided
     prev = None
     for i, (l, d) in enumerate(zip(t['labels'], P)):
         tasks = d['tasks']
@@ -384,6 +385,21 @@ def monitor_trace(t, P):
                 continue
             e = eff_tmo(ops[j])
             newly = c >= 100 and (prev is None or j >= len(prev['tasks']) or prev['tasks'][j] < 100)
+            # the deciding semaphore operation of a call that does not wait: what the pool looked like then
+            if not h2 and e == 1 and prev is not None and j < len(prev['tasks']) and l[0] == 1 and l[1] == j \
+                    and (prev['tasks'][j] in (1, 2) or 90 <= prev['tasks'][j] <= 98) and (c == 7 or c >= 100) \
+                    and j not in decided:
+                decided[j] = (prev['closed'], prev['permits'], i)
+            if newly and c == 101 and j in decided:
+                cl, pm, at = decided[j]
+                if cl:
+                    fail('C10', i, '%s answered Timeout although the semaphore was closed when it was decided (step %d): '
+                                   'Closed is the documented answer' % (fmt_label(ops[j]), at))
+                    fail('C12', i, '%s answered Timeout on a pool that close() had already closed (decided at step %d)'
+                         % (fmt_label(ops[j]), at))
+                elif pm > 0:
+                    fail('C10', i, '%s answered Timeout while %d objects were available (decided at step %d)'
+                         % (fmt_label(ops[j]), pm, at))
             if e == 1 and c in (3, 4):
                 fail('C10', i, '%s with a zero timeout is parked on the semaphore' % fmt_label(ops[j]))
             if e == 2 and not has_rt:
